@@ -6,7 +6,8 @@ Tie: correspondence streams between the real `ModuleDSN` / `Node.scope|namespace
 `VarsCollector` and BOTH model layers (driver family `scope`).
 Search: the property's own metamorphic oracle on the real code — `transpile(r(P)) == r(transpile(P))`, the same for the
 symbol-table keys and the inferred type strings — for generated programs and injective renamings into adversarial fresh
-names; plus the replay of the `_counterexample` witnesses of Props/C08.lean on the real code.
+names; sibling-scope independence; agreement of every variable reference with CPython's symtable. corpus/C08 holds the
+witnesses of the three defects repaired in /repo (4e765ba, c8f2d33, 526fc7c) and of two seeded mutation classes: all must pass.
 """
 from __future__ import annotations
 
@@ -270,8 +271,8 @@ def search_rename(ctx: Ctx) -> SearchResult:
 				res.findings.append(f)
 
 	# 2. generated programs × adversarial renamings
-	n_prog = ctx.scale(36, 320)
-	per_prog = ctx.scale(3, 5)
+	n_prog = ctx.scale(36, 170)
+	per_prog = ctx.scale(3, 4)
 	for origin, src, tag in program_stream(ctx, rng, n_prog):
 		try:
 			domain = c08gen.renaming_domain(src, reserved)
@@ -297,7 +298,9 @@ def search_rename(ctx: Ctx) -> SearchResult:
 			for a_name in mapping:
 				hist[f'kind:{domain[a_name]}'] += 1
 			r = check_pair(real, src, mapping, base)
-			if isinstance(r, tuple):
+			if isinstance(r, tuple) and len(res.findings) >= 3:
+				hist['violations-not-shrunk(3 findings already reported)'] += 1
+			elif isinstance(r, tuple):
 				# history independence of the verdict: confirm on a fresh App before reporting
 				again = Real(ctx)
 				if not isinstance(check_pair(again, src, mapping), tuple):
@@ -935,7 +938,7 @@ def search_symtable(ctx: Ctx) -> SearchResult:
 	real = Real(ctx)
 	reserved = real.reserved()
 	hist: Counter[str] = Counter()
-	for i in range(ctx.scale(14, 200)):
+	for i in range(ctx.scale(14, 110)):
 		src, _ = c08gen.generate_nest(random.Random(rng.getrandbits(48)), 1 + i % 3)
 		variants = [('P', src, {})]
 		try:
@@ -981,8 +984,7 @@ def search_sibling_scopes(ctx: Ctx) -> SearchResult:
 	"""Binding structure, not spelling: two SIBLING loops of one function that use the same loop variable must be handled the
 	same way whatever number of statements stands between them. The oracle is the law itself on the real code: the outcome
 	class (transpiles / which error) and — up to the padding lines — the emitted text do not depend on the padding.
-	`merged_refines_counterexample` predicts a failure exactly when the id of the second loop starts with the digits of the id
-	of the first (`for@10` / `for@107`)."""
+	Regression for 526fc7c: with a bare `startswith` on the scope strings the case `for@10` / `for@107` (7 statements) failed."""
 	import rogw.tranp.syntax.node.definition as defs
 	from rogw.tranp.implements.cpp.transpiler.py2cpp import Py2Cpp
 	rng = ctx.sub_rng('sibling')
@@ -1016,7 +1018,7 @@ def search_sibling_scopes(ctx: Ctx) -> SearchResult:
 				res.findings.append(Finding(
 					key='merge-scope-id-prefix' if prefix else 'sibling-scope-padding',
 					what=(f'two sibling loops over `{names[1]}` in `{names[0]}`: with {pad} statements between them the result is {oc[0]} instead of {ref[0]} '
-						f'(flow scopes for@{a} and for@{b}: VarsCollector._merged uses a bare startswith on the scope strings)'),
+						f'(flow scopes for@{a} and for@{b}: are scope strings compared without delimiters again?)'),
 					replay={'origin': 'sibling-scopes', 'source': src if (src := two_loops(pad, names)) else '', 'pad': pad, 'for_ids': [a, b], 'outcome': oc[0], 'reference': ref[0]}))
 		if len(res.samples) < 1:
 			res.samples.append({'names': names, 'pads': len(outcomes), 'outcomes': dict(Counter(o[0] for o in outcomes.values()))})
@@ -1041,9 +1043,7 @@ STATEMENTS = {
 	'string_refines_resolve': 'find_by_symbolic on the joined strings = encoding of the abstract lookup',
 	'string_refines_standard': 'by_standard on the joined strings = encoding of the abstract lookup',
 	'string_refines_names': 'Node.scope / namespace / fullyname / DeclThisVar.fullyname on strings = encodings of the abstract ones',
-	'merged_refines_counterexample': 'NOT (merging on strings = encoding of merging on element lists): witnesses for@10 / for@107 (reachable) and ab / abc — the bare startswith of VarsCollector._merged',
-	'merged_refines_partial': 'the bare startswith never misses a declaration in the same or an enclosing scope (element-wise prefix implies string prefix)',
-	'merged_refines_prefixFree': 'exact: merging on strings = encoding of merging on element lists for declarations of one module whose scope elements are position-wise prefix-free (the hypothesis the real ids for@10 / for@107 violate)',
+	'string_refines_merging': 'VarsCollector._merged / _collect_impl on the joined strings (ModuleDSN.expanded + element-wise prefix, as repaired in 526fc7c) = encoding of merging on element lists, for all well-formed declarations; the former counterexample witnesses (for@10 / for@107, ab / abc) are regression examples',
 	'equivariant': 'bundle of the equivariant_* theorems for an injective renaming that fixes the reserved words',
 	'string_refines': 'bundle of the string_refines_* theorems for well-formed names',
 }
@@ -1059,7 +1059,7 @@ def run(ctx: Ctx) -> int:
 		statements=STATEMENTS,
 		partial={
 			'proved': 'name resolution, scope construction, fullyname/scope/namespace and declaration merging are equivariant under injective renamings (abstract layer); '
-				'the string layer refines the abstract layer for identifier names for every function except VarsCollector._merged, whose bare startswith is refuted (counterexample) with its sound half proved',
+				'the string layer refines the abstract layer for identifier names for every modelled function, including VarsCollector._merged as repaired in 526fc7c',
 			'correspondence_only': 'that the two model layers are what the Python does (streams dsn, scope-real, scope-synth, merge)',
 			'search_only': 'the whole-pipeline law transpile(r(P)) == r(transpile(P)) incl. templates and the regex/string post-processing of py2cpp.py:1679-1836, symbol keys, inferred type strings',
 			'not_modelled': 'DSN.relativefy (bare split(starts)) as used by ClassDomainNaming.__namespace without alias handler (debug path only); alias_dsn / i18n lookups',
